@@ -34,6 +34,8 @@ type backend interface {
 // ------------------------------------------------------------------ directory based (local, sftp)
 
 type dirBackend struct {
+	spelled string // local: the store path as handed to desync
+	cwd     string // local: working directory the spelling needs ("" = any)
 	dir     string
 	pruner  desync.PruneStore
 	cleanup func()
@@ -85,13 +87,83 @@ func (b *dirBackend) close() {
 	}
 }
 
-func openLocal(unc bool) (*dirBackend, desync.LocalStore) {
-	dir := hx.Scratch("c16local")
-	s, err := desync.NewLocalStore(dir, desync.StoreOptions{Uncompressed: unc})
-	if err != nil {
-		infra("NewLocalStore: %v", err)
+// Spellings of a local store path (Case.StorePath). The relative ones need the parent of the
+// store directory as working directory.
+var storePathSpellings = []string{"canonical", "trailing-slash", "double-slash", "dot", "dotdot", "relative", "relative-dot", "relative-trailing-slash",
+	"symlink", "symlink-trailing-slash", "symlink-in-path"}
+
+// spellStorePath returns how the clean absolute directory dir is written, the working
+// directory that spelling needs ("" = any) and a function removing what it created (the
+// symlink spellings put a link next to the store directory).
+func spellStorePath(dir, spelling string) (spelled, cwd string, cleanup func()) {
+	parent, base := filepath.Dir(dir), filepath.Base(dir)
+	cleanup = func() {}
+	link := func(name, target string) string {
+		p := filepath.Join(parent, name)
+		if err := os.Symlink(target, p); err != nil {
+			infra("symlink %s: %v", p, err)
+		}
+		cleanup = func() { os.Remove(p) }
+		return p
 	}
-	return &dirBackend{dir: dir, pruner: s, cleanup: func() { os.RemoveAll(dir) }}, s
+	switch spelling {
+	case "symlink": // the store path is a symbolic link to the store directory
+		return link(base+".lnk", dir), "", cleanup
+	case "symlink-trailing-slash":
+		return link(base+".lnk", dir) + "/", "", cleanup
+	case "symlink-in-path": // a symbolic link to the parent directory in the middle of the path
+		return link(base+".mid", parent) + "/" + base, "", cleanup
+	}
+	spelled, cwd = spellPlain(dir, spelling)
+	return spelled, cwd, cleanup
+}
+
+func spellPlain(dir, spelling string) (spelled, cwd string) {
+	parent, base := filepath.Dir(dir), filepath.Base(dir)
+	switch spelling {
+	case "trailing-slash":
+		return dir + "/", ""
+	case "double-slash":
+		return parent + "//" + base, ""
+	case "dot":
+		return parent + "/./" + base, ""
+	case "dotdot":
+		return dir + "/../" + base, ""
+	case "relative":
+		return base, parent
+	case "relative-dot":
+		return "./" + base, parent
+	case "relative-trailing-slash":
+		return base + "/", parent
+	}
+	return dir, ""
+}
+
+// openLocal opens a LocalStore on a fresh scratch directory, naming it in the given spelling.
+// For a relative spelling the process changes its working directory until cleanup.
+func openLocal(unc bool, spelling string) (*dirBackend, desync.LocalStore) {
+	dir := hx.Scratch("c16local")
+	spelled, cwd, unspell := spellStorePath(dir, spelling)
+	restore := func() {}
+	if cwd != "" {
+		old, err := os.Getwd()
+		if err != nil {
+			infra("getwd: %v", err)
+		}
+		if err := os.Chdir(cwd); err != nil {
+			infra("chdir %s: %v", cwd, err)
+		}
+		restore = func() {
+			if err := os.Chdir(old); err != nil {
+				infra("chdir back to %s: %v", old, err)
+			}
+		}
+	}
+	s, err := desync.NewLocalStore(spelled, desync.StoreOptions{Uncompressed: unc})
+	if err != nil {
+		infra("NewLocalStore(%q): %v", spelled, err)
+	}
+	return &dirBackend{dir: dir, spelled: spelled, cwd: cwd, pruner: s, cleanup: func() { restore(); unspell(); os.RemoveAll(dir) }}, s
 }
 
 // One SFTP store (two sessions = two child processes) per store mode and test process: a session
